@@ -26,8 +26,8 @@ type litInfo struct {
 }
 
 type traceState struct {
-	n                       Term
-	kind, fn, arg, obj, err Term
+	n                             Term
+	kind, fn, arg, obj, err, recv Term
 }
 
 func (u *Unit) newTrace(hint string) *traceState {
@@ -38,6 +38,7 @@ func (u *Unit) newTrace(hint string) *traceState {
 		arg:  u.D.Fresh(hint+"_arg", ArrS(SInt, SVal)),
 		obj:  u.D.Fresh(hint+"_obj", ArrS(SInt, SRef)),
 		err:  u.D.Fresh(hint+"_err", ArrS(SInt, SErr)),
+		recv: u.D.Fresh(hint+"_recv", ArrS(SInt, SVal)),
 	}
 	return t
 }
@@ -56,7 +57,11 @@ func (u *Unit) trace(env *Env) *traceState {
 
 func (u *Unit) emit(env *Env, kind int, fn Term, arg Term, obj Term, errv Term) {
 	t := u.trace(env)
-	nt := &traceState{n: add(t.n, IntLit(1)), kind: Store(t.kind, t.n, IntLit(int64(kind))), fn: t.fn, arg: t.arg, obj: t.obj, err: t.err}
+	nt := &traceState{n: add(t.n, IntLit(1)), kind: Store(t.kind, t.n, IntLit(int64(kind))), fn: t.fn, arg: t.arg, obj: t.obj, err: t.err, recv: t.recv}
+	if obj.S != "" && obj.Sort == SVal {
+		nt.recv = u.define(env, "trr", Store(t.recv, t.n, obj))
+		obj = Term{}
+	}
 	if fn.S != "" {
 		nt.fn = Store(t.fn, t.n, fn)
 	}
@@ -80,7 +85,7 @@ func (u *Unit) emit(env *Env, kind int, fn Term, arg Term, obj Term, errv Term) 
 
 func (u *Unit) traceName(env *Env, name string) (Value, bool) {
 	switch name {
-	case "tr_len", "tr_kind", "tr_fn", "tr_arg", "tr_obj", "tr_err":
+	case "tr_len", "tr_kind", "tr_fn", "tr_arg", "tr_obj", "tr_err", "tr_recv":
 	default:
 		return Value{}, false
 	}
@@ -96,6 +101,8 @@ func (u *Unit) traceName(env *Env, name string) (Value, bool) {
 		return Value{t.arg, nil}, true
 	case "tr_obj":
 		return Value{t.obj, nil}, true
+	case "tr_recv":
+		return Value{t.recv, nil}, true
 	}
 	return Value{t.err, nil}, true
 }
@@ -108,7 +115,7 @@ func (u *Unit) havocTrace(env *Env) {
 	// events before the call are history: they do not change
 	i := u.D.Bound("i", SInt)
 	rng := And(le(IntLit(0), i), lt(i, old.n))
-	env.assume(Forall([]Term{i}, Imp(rng, And(Same(Select(nt.kind, i), Select(old.kind, i)), Same(Select(nt.fn, i), Select(old.fn, i)), Same(Select(nt.arg, i), Select(old.arg, i)), Same(Select(nt.obj, i), Select(old.obj, i)), Same(Select(nt.err, i), Select(old.err, i))))))
+	env.assume(Forall([]Term{i}, Imp(rng, And(Same(Select(nt.kind, i), Select(old.kind, i)), Same(Select(nt.fn, i), Select(old.fn, i)), Same(Select(nt.arg, i), Select(old.arg, i)), Same(Select(nt.obj, i), Select(old.obj, i)), Same(Select(nt.err, i), Select(old.err, i)), Same(Select(nt.recv, i), Select(old.recv, i))))))
 	env.tr = nt
 }
 
